@@ -140,7 +140,8 @@ class CallMixin:
             return self.call_method(st, f.self_val, f.payload, pos, kw, node, star)
         if f.what in ("module", "builtin"):
             name = f.payload
-            h = self.stubs.get(name)
+            unit_c = self.contract_stack[-1] if self.contract_stack else None
+            h = (unit_c.opaque.get("stub:" + name) if unit_c is not None else None) or self.stubs.get(name)
             if h is None:
                 raise Unsupported(f"call of unmodelled {name} at line {self.line(node)}")
             self.ctx.stub_uses.add(name)
